@@ -90,3 +90,189 @@ def match_correction(wl, rl):
     if k == "vs":
         return wl[1] == rl[1], None
     return False, None
+
+
+# ---------------------------------------------------------------------------------------------
+import re
+from .facts import op_place, const_int
+
+
+def buffer_shape(body, op):
+    """(length or None, constant first byte or None, root local or None) of the byte buffer an operand refers to."""
+    from .facts import promoted_bytes
+    seen = set()
+    cur = op
+    while True:
+        p = op_place(cur) if ("c" in cur or "m" in cur) else (cur if "l" in cur else None)
+        if p is None:
+            k = op_const(cur) if isinstance(cur, dict) else None
+            if k is not None and isinstance(k, dict):
+                b = const_bytes(k)
+                if b is None:
+                    b = promoted_bytes(body, k)
+                if b is not None:
+                    return len(b), (b[0] if len(b) == 1 else None), None
+            return None, None, None
+        l = p["l"]
+        if l in seen:
+            return None, None, None
+        seen.add(l)
+        ty = body.local_ty(l)
+        proj_fields = [e for e in p["p"] if isinstance(e, dict) and ("f" in e)]
+        ranged = [e for e in p["p"] if isinstance(e, dict) and ("sub" in e or "i" in e)]
+        if not proj_fields and not ranged:
+            m = re.match(r"^\[u8; (\d+)\]$", ty)
+            if m:
+                n = int(m.group(1))
+                v = None
+                ds = body.defs(l)
+                if len(ds) == 1 and ds[0][2] == "assign" and ds[0][3]["k"] == "agg" and ds[0][3].get("ak") == "array" and n == 1:
+                    v = flow.const_eval(body, ds[0][3]["ops"][0])
+                elif len(ds) == 1 and ds[0][2] == "assign" and ds[0][3]["k"] == "repeat" and n == 1:
+                    v = None
+                return n, v, l
+        ds = body.defs(l)
+        if len(ds) != 1:
+            return None, None, l
+        bb, idx, kind, payload = ds[0]
+        if kind == "assign" and payload["k"] in ("use", "cast"):
+            cur = payload["op"]
+            continue
+        if kind == "assign" and payload["k"] in ("ref", "rawptr"):
+            pl = payload["place"]
+            # &self.zlib_header : a field of array type
+            fl = [e for e in pl["p"] if isinstance(e, dict) and "f" in e]
+            if fl:
+                # type of the field is not in the local table; use the ADT facts through the caller (None here)
+                return ("field", fl[-1].get("n")), None, pl["l"]
+            cur = pl
+            continue
+        if kind == "call":
+            n = strip_generics(callee_def(payload))
+            m = re.match(r"^\[u8; (\d+)\]$", ty)
+            if m:
+                return int(m.group(1)), None, l
+            if re.search(r"(Deref::deref|DerefMut::deref_mut|as_slice|as_mut_slice|Index::index|IndexMut::index_mut|index|index_mut)$", n):
+                a0 = payload["args"][0]
+                n0, v0, r0 = buffer_shape(body, a0)
+                if re.search(r"(Deref::deref|DerefMut::deref_mut|as_slice|as_mut_slice)$", n):
+                    return n0, v0, r0
+                return None, None, r0
+            return None, None, l
+        return None, None, l
+
+
+class Container(Alphabet):
+    """Byte-level container protocol.  labels: ('bytes', n|None, const|None)  ('varint', const|None)"""
+
+    def __init__(self, side, scope, F):
+        self.side = side
+        self.scope = set(scope)
+        self.F = F
+
+    def _kind(self, t):
+        c = t.get("callee", {})
+        d = strip_generics(c.get("def", ""))
+        tr = c.get("trait")
+        if self.side == "w":
+            if tr == "std::io::Write" and d.endswith("::write_all"):
+                return "write_all"
+            if d == "preflate_rs::preflate_container::write_varint":
+                return "varint"
+            if d == "std::vec::Vec::push":
+                return "push"
+        else:
+            if tr == "std::io::Read" and d.endswith("::read"):
+                return "read"
+            if tr == "std::io::Read" and d.endswith("::read_exact"):
+                return "read_exact"
+            if tr == "byteorder::ReadBytesExt" and d.endswith("::read_u8"):
+                return "read_u8"
+            if d == "preflate_rs::preflate_container::read_varint":
+                return "varint"
+        return None
+
+    def is_event_callee(self, t):
+        return self._kind(t) is not None
+
+    def _field_len(self, body, shape_n):
+        return shape_n
+
+    def event(self, M, body, bb, t):
+        if body.name not in self.scope:
+            return None
+        k = self._kind(t)
+        if k is None:
+            return None
+        a = t["args"]
+        d = t["dest"]
+        dl = d["l"] if not d["p"] else None
+        if self.side == "w":
+            if k == "write_all":
+                n, v, root = buffer_shape(body, a[1])
+                if isinstance(n, tuple):
+                    n = self._adt_field_len(body, a[1], n[1])
+                return [(("bytes", n, v), None)]
+            if k == "varint":
+                return [(("varint", flow.const_eval(body, a[1])), None)]
+            if k == "push":
+                v = flow.const_eval(body, a[1])
+                if v is None:
+                    return None
+                # only pushes onto the destination of this protocol count: a u8 constant pushed onto a Vec<u8>
+                if not body.local_ty(op_place(a[0])["l"]).endswith("std::vec::Vec<u8>"):
+                    return None
+                return [(("bytes", 1, v), None)]
+        else:
+            if k == "varint":
+                return [(("varint", None), (lambda v, dl=dl: {dl: ("t", "Ok", ("i", v) if v is not None else None)} if dl is not None else {}))]
+            if k == "read_u8":
+                return [(("bytes", 1, None), (lambda v, dl=dl: {dl: ("t", "Ok", ("i", v) if v is not None else None)} if dl is not None else {}))]
+            n, _, root = buffer_shape(body, a[1])
+            if isinstance(n, tuple):
+                n = self._adt_field_len(body, a[1], n[1])
+            if k == "read_exact":
+                def b1(v, dl=dl, root=root, n=n):
+                    u = {}
+                    if dl is not None:
+                        u[dl] = ("t", "Ok", None)
+                    if root is not None and n == 1 and v is not None:
+                        u[root] = ("i", v)
+                    return u
+                return [(("bytes", n, None), b1)]
+            if k == "read":
+                def got(v, dl=dl, root=root, n=n):
+                    u = {}
+                    if dl is not None and n is not None:
+                        u[dl] = ("t", "Ok", ("i", n))
+                    if root is not None and n == 1 and v is not None:
+                        u[root] = ("i", v)
+                    return u
+
+                def eof(v, dl=dl):
+                    return {dl: ("t", "Ok", ("i", 0))} if dl is not None else {}
+                return [(("bytes", n, None), got), (None, eof)]
+        return None
+
+    def _adt_field_len(self, body, op, fname):
+        """Length of an array-typed ADT field referenced by `&self.field`."""
+        for a in self.F.adts.values():
+            for v in a["variants"]:
+                for f in v["fields"]:
+                    if f["name"] == fname:
+                        m = re.match(r"^\[u8; (\d+)\]$", f["ty"])
+                        if m:
+                            return int(m.group(1))
+        return None
+
+
+def match_container(wl, rl):
+    if wl[0] != rl[0]:
+        return False, None
+    if wl[0] == "varint":
+        return True, wl[1]
+    if wl[0] == "bytes":
+        if wl[1] != rl[1]:
+            return False, None
+        return True, wl[2]
+    return False, None
